@@ -77,3 +77,41 @@ Theorem C10_ppc_low_zero_roundtrip_partial : forall s E M, 0 <= E < 2 ^ 11 -> 0 
   is_nan_bits binary64 (compose binary64 s E M) = false -> (E = 2047 -> s = false) ->
   rt (compose binary64 s E M) 0 = Some (Some (compose binary64 s E M, 0)).
 Proof. exact ppc_low_zero_roundtrip. Qed.
+
+(* ---- decimal literals of kind double: the reading of the text ----
+   Model/DecRead.v reads a non-negative rational n/d into binary64 (K stands for the double K * 2^-1074; the
+   representable K are the m * 2^j with m < 2^53, j <= 2045).  The reader is the correctly rounded one: the result
+   is representable, no representable value is nearer, a tie goes to the even significand, an exactly representable
+   value is read as itself, the result is +Inf exactly from the rounding boundary 2^1024 - 2^970 on, and reading is
+   monotone.  It is what LLVM's reader does and, since the repair of KF-40, what constant.NewFloatFromString does
+   (correspondence kind dec_read, on literals next to rounding boundaries among others). *)
+From LLIR Require Import Model.DecRead Proofs.DecReadProofs.
+Local Open Scope Z_scope.
+Theorem C10_decimal_read_is_representable : forall n d K, 0 <= n -> 0 < d -> read n d = RFinite K -> representable K.
+Proof. exact read_representable. Qed.
+Theorem C10_decimal_read_is_nearest : forall n d K, 0 <= n -> 0 < d -> read n d = RFinite K ->
+  forall K', representable K' -> Z.abs (n * 2 ^ 1074 - K * d) <= Z.abs (n * 2 ^ 1074 - K' * d).
+Proof. exact read_nearest. Qed.
+Theorem C10_decimal_read_ties_to_even : forall n d K, 0 <= n -> 0 < d -> read n d = RFinite K ->
+  forall K', representable K' -> K' <> K -> Z.abs (n * 2 ^ 1074 - K * d) = Z.abs (n * 2 ^ 1074 - K' * d) ->
+  exists m j, 0 <= m < 2 ^ 53 /\ 0 <= j <= 2045 /\ K = m * 2 ^ j /\ (2 ^ 52 <= m \/ j = 0) /\ Z.even m = true.
+Proof. exact read_ties_even. Qed.
+Theorem C10_decimal_read_exact : forall n d K, 0 <= n -> 0 < d -> representable K -> n * 2 ^ 1074 = K * d -> read n d = RFinite K.
+Proof. exact read_exact. Qed.
+Theorem C10_decimal_read_overflow : forall n d, 0 <= n -> 0 < d -> (read n d = RInf <-> (2 ^ 1024 - 2 ^ 970) * d <= n).
+Proof. exact read_overflow. Qed.
+Theorem C10_decimal_read_monotone : forall n1 d1 n2 d2 K1 K2,
+  0 <= n1 -> 0 < d1 -> 0 <= n2 -> 0 < d2 -> n1 * d2 <= n2 * d1 -> read n1 d1 = RFinite K1 -> read n2 d2 = RFinite K2 -> K1 <= K2.
+Proof. exact read_monotone. Qed.
+Theorem C10_double_bits_injective : forall K1 K2, representable K1 -> representable K2 -> bits_of K1 = bits_of K2 -> K1 = K2.
+Proof. exact bits_of_inj. Qed.
+(* KF-40's literals: just above and just below half of the smallest subnormal; the overflow boundary *)
+Example C10_decimal_read_examples :
+  bits_of_rd (read_decimal 24703282292062328 (-340)) = 1 /\ bits_of_rd (read_decimal 24703282292062327 (-340)) = 0
+  /\ bits_of_rd (read_decimal 17976931348623157 292) = 0x7FEFFFFFFFFFFFFF /\ read_decimal 17976931348623159 292 = RInf
+  /\ bits_of_rd (read_decimal 1 (-1)) = 0x3FB999999999999A.
+Proof. vm_compute. repeat split. Qed.
+Print Assumptions C10_decimal_read_is_nearest.
+Print Assumptions C10_decimal_read_ties_to_even.
+Print Assumptions C10_decimal_read_overflow.
+Print Assumptions C10_decimal_read_monotone.
